@@ -14,7 +14,8 @@ PROP = {'streams': [('c14', 2500, 120000)],
  'theorems': ['tpe_table_sound', 'views_agree', 'policy_set_presents_originals', 'views_agree_full_fails', 'interpret_sound',
               'interpret_sound_outcomes', 'interpret_keeps_typeSafe', 'can_error_analysis_sound', 'tpe_decision_sound',
               'interpret_sound_partial', 'opBool_all_unsatisfiable', 'query_exact', 'query_action_sound', 'query_resource_exact',
-              'query_principal_exact'],
+              'query_principal_exact', 'tpe_decision_sound_valid', 'tpe_total_valid', 'query_resource_exact_valid',
+              'query_principal_exact_valid', 'query_action_sound_valid'],
  'assumptions': ['the typed condition TPE starts from (output of the Rust typechecker for the request environment) is an input of the model '
                  '(trusted base: the typechecker, tied by C03); the harness recomputes it with Typechecker::typecheck_by_single_request_env',
                  'error classes are not compared between residual evaluation and concrete evaluation (the property says "erroring")',
@@ -22,9 +23,15 @@ PROP = {'streams': [('c14', 2500, 120000)],
                  'compared as canonical model values',
                  'schema validation inside reauthorize and the stack-depth guard of interpret are not modelled',
                  'interpret_sound (all arms of interpret, every residual) assumes TypeSafe of the INPUT residual on the completion: no node '
-                 'raises a type error (operand kinds fit the operators; guarded by short-circuiting) - a semantic consequence of validation '
-                 '(C03) that is NOT derived from the Lean typechecker model (the typed expression is an input of the TPE model)',
-                 'tpe_decision_sound additionally assumes TypedAgrees: the typed condition evaluates like the policy condition',
+                 'raises a type error (operand kinds fit the operators; guarded by short-circuiting); tpe_decision_sound / query_*_exact '
+                 'additionally assume TypedAgrees (the typed condition evaluates like the policy condition). The *_valid theorems DERIVE '
+                 'both from C03 strict soundness (Lemmas/TpeValid*.lean: annot_typeSafe re-runs the C03 induction over Level.annotate, the '
+                 'C16 mirror of the typed AST the Rust typechecker hands back) and carry validation-level hypotheses only: SchemaWF2, '
+                 'ValidTyped (static policies in the strict fragment accepted by checkPolicy .strict in every environment, typed condition = '
+                 'erasure of annotate for the environment of the partial request), Conformant completion (ConformsRequest, StoreConforms, '
+                 'ActionsPresent), Completes',
+                 'that the typed expression Rust hands to TPE IS the erasure of Level.annotate is not proved (annotate is a mirror, tied to '
+                 'Rust through the C16 differential run of the level checker; the C14 run feeds the model the typed expression Rust computed)',
                  'interpret soundness is proved over Residual.eval (a Concrete residual evaluates to its value; ofExpr_eval ties it to '
                  'evaluate on the typed expression); the passage through Value -> Expr of the real reauthorization is covered by the '
                  'differential run (tpe-re lines) only']}
@@ -39,9 +46,13 @@ TEXT = ('Lean theorems over the mirror of tpe::Evaluator::interpret (all arms: u
  'interpret_keeps_typeSafe), can_error_analysis_sound (the mirrored can_error_assuming_well_formed is sound on type-safe residuals: the former '
  'hypotheses ErrFreeSound / OpBool are discharged), tpe_decision_sound (interpret_sound + table: a definite TPE decision is the concrete '
  'decision on every completion), interpret_sound_partial (older Frag formulation, now all constructors), query_exact / query_action_sound '
- '(given TPE soundness = tpe_decision_sound); tied to the code by a '
+ '(given TPE soundness = tpe_decision_sound); tpe_decision_sound_valid / query_resource_exact_valid / query_principal_exact_valid / '
+ 'query_action_sound_valid / tpe_total_valid: the same statements from VALIDATION-level hypotheses only (strictly valid static policies per '
+ 'the C03 model, typed conditions = the typechecker typed AST Level.annotate, conformant completions): TypedSafe / TypedAgrees are derived '
+ 'from C03 soundM by one induction over annotate with a per-node invariant (Lemmas/TpeValid*.lean); tied to the code by a '
  'differential run (decision + id->class, and what residuals evaluate to on completions), plus the statement itself evaluated on the '
  'implementation for sampled consistent completions, all views and the three queries.',
  'proof over a hand-written model; interpret soundness is proved for all arms under the semantic hypothesis TypeSafe (no type error at any '
- 'node of the typed condition on the completion), which is not derived from the typechecker model; correspondence sampled (harness/src/c14.rs); residual shapes never compared; one genuine defect recorded '
+ 'node of the typed condition on the completion), which the *_valid theorems derive from the typechecker model (C03) for typed conditions that '
+ 'are the erasure of the modelled typed AST (Level.annotate); correspondence sampled (harness/src/c14.rs); residual shapes never compared; one genuine defect recorded '
  '(policy_set() returns the original policies)')
